@@ -358,6 +358,9 @@ func (ex *Exec) asmViolation(id, detail string, cond *Term) {
 	if r == Sat && tp != nil {
 		tp.Kind = "counterexample"
 		tp.Expect.Fail = id
+		if id == "alloc-bounded" {
+			tp.Expect.Fail = id + ": " + detail // the predicted size is part of what the native run confirms
+		}
 		ex.path.Failures = append(ex.path.Failures, Failure{ID: id + ": " + detail, Tape: tp})
 	} else if r == Unknown {
 		ex.path.Inconclusive = append(ex.path.Inconclusive, "unknown while deciding "+id)
